@@ -14,6 +14,10 @@
   RGB struct, the inner raw value of a gray struct, `0`/`1` for `BinaryColor::Off`/`On`.
   Raw values are inner values of the raw newtypes, which are always `< 2^BITS_PER_PIXEL`
   (`raw_from_u32_fits`, `raw_from_u32_exact`: every public constructor masks, and does nothing else).
+
+  The bodies this model transcribes are also REGENERATED from the Rust text (tools/tr_colorsrc.py ->
+  EG/Generated/ColorSrc.lean) and proved equal to the model, record by record and for all arguments, in
+  EG/Props/C12/Generated.lean (`*_src_eq_model`; headline theorems restated there as `src_*`).
 -/
 import EG.Lemmas.Color
 namespace EG.C12
